@@ -5,7 +5,7 @@ from rules import common
 
 CLAIMED = True
 TECHNIQUE = "static analysis over type-checked MIR: guarded-table extraction of the unit->multiplier / unit->variant decision chains with constant folding, checked-arithmetic inventory with None-edge reachability, sign/range guard dominance for every integer cast of a deserialised value"
-LEVEL_TEXT = """Static, all-paths decision of: (L1) the size unit table extracted from the compare chain of the size visitor: b->x1, kb/kib->1024, mb/mib->1024^2, gb/gib->1024^3, tb/tib->1024^4 (constants folded), compared case-insensitively, unknown unit -> Err; (L2) every multiplication is u64::checked_mul whose None edge reaches an Err return (no *, wrapping_*, saturating_*); (L3) digits/unit split at the first non-ASCII-digit with trim on both parts, number through str::parse::<u64>/<i64> with the Err edge reaching Err, bare number -> bytes/seconds, and visit_i64 returns Err on the dominating v < 0 edge in both visitors; (L4) every integer cast applied to a deserialised value in the two visitors is dominated by a range guard; (L5) interval unit table second(s)->Second ... year(s)->Year, singular and plural in one alias group, case-insensitive, unknown -> Err; (L6) refresh_rate goes through humantime::parse_duration with its error mapped to a serde error. The numeric behaviour of std's parse/checked_mul and of humantime is trusted. (L8, cont.) visit_u64/visit_i64 return the integer itself (bytes / Second(v)); (L3, cont.) a string without a unit is Second(the parsed number) with no arithmetic on it; (L9a-c) the three visitors implement the documented entry points only, any other visit_* being a plain hand-over of its argument to one of them."""
+LEVEL_TEXT = """Static, all-paths decision of: (L1) the size unit table extracted from the compare chain of the size visitor: b->x1, kb/kib->1024, mb/mib->1024^2, gb/gib->1024^3, tb/tib->1024^4 (constants folded), compared case-insensitively, unknown unit -> Err; (L2) every multiplication is u64::checked_mul whose None edge reaches an Err return (no *, wrapping_*, saturating_*); (L3) digits/unit split at the first non-ASCII-digit with trim on both parts, number through str::parse::<u64>/<i64> with the Err edge reaching Err, bare number -> bytes/seconds, and visit_i64 returns Err on the dominating v < 0 edge in both visitors; (L4) every integer cast applied to a deserialised value in the two visitors is dominated by a range guard; (L5) interval unit table second(s)->Second ... year(s)->Year, singular and plural in one alias group, case-insensitive, unknown -> Err; (L6) refresh_rate goes through humantime::parse_duration with its error mapped to a serde error. The numeric behaviour of std's parse/checked_mul and of humantime is trusted. (L8, cont.) visit_u64/visit_i64 return the integer itself (bytes / Second(v)); (L3, cont.) a string without a unit is Second(the parsed number) with no arithmetic on it; (L9a-c) the three visitors implement the documented entry points only, any other visit_* being a plain hand-over of its argument to one of them. (L3, cont.) the bare-number decision is followed from the entry with constants on the None edge of the non-digit search."""
 LEVEL_NOTE = "Trusted: rustc MIR/callee resolution; core::str::parse, u64::checked_mul, str::eq_ignore_ascii_case, humantime::parse_duration; serde's visitor dispatch."
 EXPLANATION = """Decided: L1 multiplier table, L2 checked multiplication with rejecting None edge, L3 split/trim/parse/sign guards, L4 cast inventory under range guards, L5 interval unit table, L6 refresh_rate via humantime. Undecided: nothing of substance beyond the trusted std/humantime parsers."""
 DECIDED = ["L1 size unit table", "L2 overflow checked", "L3 number parsing and sign guards", "L4 guarded casts", "L5 interval unit table", "L6 refresh_rate via humantime"]
